@@ -176,7 +176,7 @@ func parseReq(src []rune) Req {
 // manualSnippets extracts fenced code blocks from the manual as extra corpus.
 func manualSnippets() []string {
 	out := []string{}
-	files, _ := filepath.Glob("/repo/doc/zh-cn/manual/*.md")
+	files, _ := filepath.Glob(repoRoot() + "/doc/zh-cn/manual/*.md")
 	for _, f := range files {
 		data, err := os.ReadFile(f)
 		if err != nil {
